@@ -49,7 +49,8 @@ func ceSigner(fail bool, record *[]byte) cloudevents.Signer {
 		for _, x := range b {
 			sum += int(x)
 		}
-		return fmt.Sprintf("sum%dlen%d", sum%65521, len(b)), nil
+		// an arbitrary string: a control character, DEL, a quote, a backslash, HTML characters: the stored document is JSON all the same and carries the signer's result
+		return "s\x1f\x7f\"\\<>&" + fmt.Sprintf("sum%dlen%d", sum%65521, len(b)), nil
 	}
 }
 
